@@ -84,3 +84,53 @@ package ctutil
 //@ arith int
 //@ pure
 //@ ensures [nothing-to-look-in-is-not-found] cert == nil || sct == nil ==> !result0 && result1 == nil
+
+// Inclusion checking on the client side (C06, C12): the index is returned only when the audit path the
+// log served for the leaf hash verifies, at the tree size and against the root hash given.
+//@ func (*LogInfo).VerifyInclusionAt
+//@ props C06 C12
+//@ modifies leaf.TimestampedEntry.Timestamp
+//@ site LeafHashForLeaf#1 as lh
+//@ site GetProofByHash#1 as gp
+//@ site proof.VerifyInclusion#1 as vi
+//@ requires li != nil && li.Client != nil && leaf.TimestampedEntry != nil
+//@ ensures [any-failure-gives-minus-one] result1 != nil ==> result0 == -1
+//@ ensures [an-index-is-returned-only-with-a-verified-audit-path] result1 == nil ==> lh.res1 == nil && gp.called && gp.res1 == nil && vi.called && vi.res == nil && result0 == after(gp, gp.res0.LeafIndex)
+//@ ensures [a-verified-path-is-accepted] vi.called && vi.res == nil ==> result1 == nil
+//@ at lh assert [hash-of-the-leaf-at-the-sct-timestamp] lh.leaf.TimestampedEntry == leaf.TimestampedEntry && leaf.TimestampedEntry.Timestamp == timestamp
+//@ at gp assert [asks-for-the-proof-of-that-hash-at-that-size] gp.treeSize == treeSize && len(gp.hash) == 32
+//@ at vi assert [verifies-the-served-path-for-the-served-index-against-the-given-root] vi.index == uint64(after(gp, gp.res0.LeafIndex)) && vi.size == treeSize && vi.root == rootHash && vi.proof == after(gp, gp.res0.AuditPath) && len(vi.leafHash) == 32
+
+//@ func (*LogInfo).VerifyInclusion
+//@ props C06 C12
+//@ may panic
+//@ site GetSTH#1 as gs
+//@ site VerifyInclusionAt#1 as va
+//@ requires li != nil && li.Client != nil && leaf.TimestampedEntry != nil
+//@ ensures [no-tree-head-no-verdict] gs.res1 != nil ==> result1 != nil && result0 == -1 && !va.called
+//@ ensures [otherwise-the-verdict-at-the-fetched-tree-head] gs.res1 == nil ==> va.called && result0 == va.res0 && result1 == va.res1
+//@ at va assert [checked-at-the-size-and-root-of-the-head-just-fetched] va.treeSize == gs.res0.TreeSize && va.timestamp == timestamp && len(va.rootHash) == 32
+
+//@ func (*LogInfo).SetSTH
+//@ props C06 C12
+//@ requires li != nil
+//@ modifies li.lastSTH
+//@ ensures [remembers-exactly-that-head] li.lastSTH == sth
+
+//@ func (*LogInfo).LastSTH
+//@ props C06 C12
+//@ pure
+//@ requires li != nil
+//@ ensures [the-head-last-remembered] result == li.lastSTH
+
+//@ func (*LogInfo).VerifyInclusionLatest
+//@ props C06 C12
+//@ may panic
+//@ site LastSTH#1 as ls
+//@ site GetSTH#1 as gs
+//@ site VerifyInclusionAt#1 as va
+//@ requires li != nil && li.Client != nil && leaf.TimestampedEntry != nil
+//@ ensures [a-tree-head-is-fetched-only-when-none-is-remembered] gs.called ==> ls.res == nil
+//@ ensures [no-tree-head-no-verdict] gs.called && gs.res1 != nil ==> result1 != nil && result0 == -1 && !va.called
+//@ ensures [otherwise-the-verdict-at-the-remembered-or-fetched-head] !(gs.called && gs.res1 != nil) ==> va.called && result0 == va.res0 && result1 == va.res1
+//@ at va assert [checked-at-the-size-of-that-head] va.timestamp == timestamp && len(va.rootHash) == 32 && (ls.res != nil ==> va.treeSize == ls.res.TreeSize) && (ls.res == nil ==> va.treeSize == gs.res0.TreeSize)
